@@ -523,6 +523,8 @@ func DumpSites() {
 		n int
 	}
 	var l []kv
+	siteMu.Lock()
+	defer siteMu.Unlock()
 	for k, n := range siteLog {
 		l = append(l, kv{k, n})
 	}
